@@ -296,6 +296,11 @@ TPM_RESULT TPM_NVRAM_StoreData(const unsigned char *data,
 #ifdef TPM_LIBTPMS_CALLBACKS
     struct libtpms_callbacks *cbs = TPMLIB_GetCallbacks();
 
+    /* a save-state blob set with TPMLIB_SetState() that no TPM_Startup(ST_STATE) has consumed
+       is superseded by the state stored now: it must not be preferred by a later load */
+    if (TPMLIB_NameToStateType(name) == TPMLIB_STATE_SAVE_STATE)
+        ClearCachedState(TPMLIB_STATE_SAVE_STATE);
+
     /* call user-provided function if available, otherwise execute
        default behavior */
     if (cbs->tpm_nvram_storedata) {
@@ -395,6 +400,11 @@ TPM_RESULT TPM_NVRAM_DeleteName(uint32_t tpm_number,
 
 #ifdef TPM_LIBTPMS_CALLBACKS
     struct libtpms_callbacks *cbs = TPMLIB_GetCallbacks();
+
+    /* invalidating the saved state also invalidates a not yet consumed save-state blob set
+       with TPMLIB_SetState() */
+    if (TPMLIB_NameToStateType(name) == TPMLIB_STATE_SAVE_STATE)
+        ClearCachedState(TPMLIB_STATE_SAVE_STATE);
 
     /* call user-provided function if available, otherwise execute
        default behavior */
